@@ -115,7 +115,7 @@ def main(argv):
             c, info = {'file': b['file'], 'cfg': b['cfg']}, None
             if i % 2 == 0:
                 # single-fault variations that concern WHICH declaration a name denotes: ambiguity (also across kinds), wrong kind
-                named = [f for f in GB.faults(rng, b) if any(x in f[0] for x in ('ambiguous', 'wrong-kind', 'unresolvable', 'duplicate'))]
+                named = [f for f in GB.faults(rng, b) if any(x in f[0] for x in ('ambiguous', 'wrong-kind', 'unresolvable', 'duplicate', 'twice'))]
                 if named:
                     c = {'file': named[i // 2 % len(named)][1]['file'], 'cfg': named[i // 2 % len(named)][1]['cfg']}
         else:
@@ -161,6 +161,8 @@ def main(argv):
                 GB.FORCE_KIND = None
         if len(got) < 2 * len(GB.OTHER_KINDS):
             continue
+        # ... and the very same declaration a second time (re-opened namespace): two declarations on the chain, too
+        got += [('same', f) for f in GB.faults(rng, b) if f[0].endswith('twice-identically')]
         found += 1
         for kind, f in got:
             c = {'file': f[1]['file'], 'cfg': f[1]['cfg']}
